@@ -46,6 +46,21 @@ IsoStep(D1, D2, st, pr) ==
                   IN [m |-> m2, rm |-> st.rm \cup {<<q2, q1>>}, todo |-> todo2,
                       result |-> IF todo2 = {} THEN "true" ELSE "none"]
 
+(* ---------- nfa_find_epsilon_path (repaired) ---------- *)
+(* state: [visited, todo, bp, cur, found]; bp a set of <<target, src>> back-pointers *)
+PathInit(R) == [visited |-> R, todo |-> R, bp |-> {}, cur |-> "~none~", found |-> FALSE]
+PathPop(st, src) == [st EXCEPT !.todo = st.todo \ {src}, !.cur = src]
+PathEdge(st, f, t) ==
+  IF t \in st.visited THEN st
+  ELSE IF t = f THEN [st EXCEPT !.bp = st.bp \cup {<<t, st.cur>>}, !.found = TRUE]
+  ELSE [st EXCEPT !.bp = st.bp \cup {<<t, st.cur>>}, !.todo = st.todo \cup {t}, !.visited = st.visited \cup {t}]
+RECURSIVE PathWalk(_, _, _, _)
+(* make_path: follow the back-pointers from q until the source set is reached (fuel bounds the walk) *)
+PathWalk(bp, R, q, fuel) ==
+  IF q \in R \/ fuel = 0 THEN <<q>>
+  ELSE LET prev == {p[2] : p \in {p \in bp : p[1] = q}}
+       IN IF prev = {} THEN <<q>> ELSE PathWalk(bp, R, CHOOSE x \in prev : TRUE, fuel - 1) \o <<q>>
+
 (* ---------- cfg_eliminate_unit_rules_in_place ---------- *)
 (* R a sequence of rules, V the variable set; one visit of variable A appends      *)
 UnitEdgesOf(R) == {<<r[1], r[2][1][2]>> : r \in {r \in ToSet(R) : IsUnitRule(r)}}
